@@ -70,10 +70,12 @@ def main():
             vec = [float.fromhex(x[nm]) for nm in free]
             mark(f'eval-{k + 1}')
             try:
-                r = b.calculate_likelihood_and_derivatives(vec, scaled=False, hessian=False, bhhh=False)
+                sc = bool((spec.get('scaled') or [False] * len(spec['points']))[k])
+                r = b.calculate_likelihood_and_derivatives(vec, scaled=sc, hessian=False, bhhh=False)
                 import numpy as np
 
-                out.append(dict(k=k + 1, f=repr(float(r.function)), gfinite=bool(np.all(np.isfinite(np.asarray(r.gradient, dtype=float)))), names=free))
+                # the log likelihood of the sample (two observations: the scaling by 2 is exact)
+                out.append(dict(k=k + 1, f=repr(float(r.function) * (2.0 if sc else 1.0)), scaled=sc, gfinite=bool(np.all(np.isfinite(np.asarray(r.gradient, dtype=float)))), names=free))
             except Exception as e:  # noqa
                 out.append(dict(k=k + 1, error=f'{type(e).__name__}: {e}'[:200]))
         mark('end')
